@@ -343,4 +343,64 @@ theorem C02_save_refs_declared (c : Collection) (dir : Option PPath) (d : Doc) (
 
 example : ∃ d, save ex none = .ok d := ⟨_, ex_saved⟩
 
+/-! ### an object referenced from several places is defined exactly once
+
+`unique` says no identifier is listed twice, `C02_exact` that the listed identifiers are the reachable
+ones.  Together, in terms of the traversal (in which an object occurs once *per path* leading to it):
+however often the key of an object occurs among the reachable objects of its kind, the definition list
+of that kind holds it exactly once. -/
+
+theorem C02_defined_exactly_once (c : Collection) (dir : Option PPath) (d : Doc) (hwf : WF c)
+    (h : save c dir = .ok d) (k : Kind) (hk : k ≠ .tag) (key : String)
+    (hkey : key ∈ reachKeys c.trav k) : (defs d k).count key = 1 := by
+  have hu := C02_unique c dir d hwf h
+  unfold unique at hu
+  rw [List.all_eq_true] at hu
+  have hnd : (defs d k).Nodup := (nodupB_iff _).1 (hu k (by cases k <;> decide))
+  have hmem : key ∈ defs d k := by
+    have := (C02_exact c dir d h k key).2 hkey
+    rwa [if_neg hk] at this
+  have h1 := List.nodup_iff_count.1 hnd key
+  have h2 := List.count_pos_iff.2 hmem
+  omega
+
+/-- non-vacuity: an evaluation whose two clip evaluations share one ClipAnnotation object (two detector
+    settings scored against one ground truth) and whose two clip predictions share one sound event
+    prediction; the clip, its recording and the annotated sound event hang under both as well -/
+def exShRec : Recording := { uuid := "r", path := ⟨"/", ["x.wav"]⟩, duration := "1", channels := "1", samplerate := "8000" }
+def exShClip : Clip := { uuid := "c", recording := exShRec, start_time := "0", end_time := "1" }
+def exShSea : SoundEventAnnotation :=
+  { uuid := "sea", sound_event := { uuid := "se", recording := exShRec }, created_on := "t", tags := [⟨"species", "x"⟩] }
+def exShCa : ClipAnnotation := { uuid := "ca", clip := exShClip, sound_events := [exShSea], created_on := "t" }
+def exShSep : SoundEventPrediction :=
+  { uuid := "sep", sound_event := { uuid := "se2", recording := exShRec }, score := "0.5", tags := [⟨⟨"species", "x"⟩, "0.5"⟩] }
+def exShCe (u p m : Atom) : ClipEvaluation :=
+  { uuid := u, annotations := exShCa, predictions := { uuid := p, clip := exShClip, sound_events := [exShSep] },
+    «matches» := [{ uuid := m, source := some exShSep, target := some exShSea, affinity := "1" }] }
+def exShared : Collection :=
+  .evaluation { uuid := "ev", created_on := "t", evaluation_task := "d",
+                clip_evaluations := [exShCe "ce1" "p1" "m1", exShCe "ce2" "p2" "m2"] }
+theorem exShared_wf : WF exShared := WF_of_wfB (by decide +kernel)
+/-- the shared objects occur several times in the traversal … -/
+example : (reachKeys exShared.trav .clipAnn).count "ca" = 2 ∧ (reachKeys exShared.trav .sePred).count "sep" = 4
+    ∧ (reachKeys exShared.trav .clip).count "c" = 4 := by decide +kernel
+/-- … and once in the document -/
+def exSharedDoc : Doc := match save exShared none with | .ok d => d | .error _ => default
+theorem exShared_saved : save exShared none = .ok exSharedDoc := by decide +kernel
+example : defs exSharedDoc .clipAnn = ["ca"] ∧ defs exSharedDoc .clipPred = ["p1", "p2"]
+    ∧ defs exSharedDoc .sePred = ["sep"] ∧ defs exSharedDoc .seAnn = ["sea"] ∧ defs exSharedDoc .clip = ["c"]
+    ∧ defs exSharedDoc .recording = ["r"] ∧ tagDefKeys exSharedDoc = ["species\u0000x"] := by decide +kernel
+example : (defs exSharedDoc .clipAnn).count "ca" = 1 :=
+  C02_defined_exactly_once exShared none exSharedDoc exShared_wf exShared_saved .clipAnn (by decide) "ca"
+    (by decide +kernel)
+/-- a hand-written document that defines the shared clip annotation once per clip evaluation (what a writer
+    that lists the annotations "in collection order" produces) is closed but not unique -/
+def exTwice : Doc :=
+  { collection_type := "evaluation", uuid := "ev",
+    recordings := some [{ uuid := "r", path := ⟨"", ["x.wav"]⟩, duration := "1", channels := "1", samplerate := "8000" }],
+    clips := some [{ uuid := "c", recording := "r", start_time := "0", end_time := "1" }],
+    clip_annotations := some [{ uuid := "ca", clip := "c", created_on := "t" }, { uuid := "ca", clip := "c", created_on := "t" }] }
+example : closed exTwice = true ∧ unique exTwice = false
+    ∧ problems exTwice = ["duplicate identifiers in clip_annotations"] := by decide +kernel
+
 end SE.Proofs.C02
